@@ -254,6 +254,34 @@ def empty_vs_absent(ctx, rep, clause):
        f'{producers} can leave an empty map where another annotation has None: a modification-free piece cut from a '
        f'modified peptide no longer equals the same unmodified peptide (the subsequence search misses it)',
        eq.loc(bad[0]) if bad else eq.loc(), clause)
+    # the same agreement for the interval list: are_intervals_equal tells None from [] (by design, and pinned by its
+    # doctests), so no method may leave an empty list where a parsed annotation has None
+    aie = program.func(f'{DC}:are_intervals_equal')
+    tells_apart = any(isinstance(x, ast.If) and 'is None' in norm_stmt(x.test) and 'is not None' in norm_stmt(x.test) and
+                      any(isinstance(r, ast.Return) and isinstance(r.value, ast.Constant) and r.value.value is False
+                          for r in x.body) for x in walk_own(aie.node))
+    for name, m in sorted(cls.methods.items()):
+        for loop in walk_own(m.node):
+            if not (isinstance(loop, ast.For) and norm_stmt(loop.iter) in ('self.intervals', 'self._intervals')):
+                continue
+            appends = [x for x in ast.walk(loop) if isinstance(x, ast.Call) and isinstance(x.func, ast.Attribute) and
+                       x.func.attr == 'append' and isinstance(x.func.value, ast.Name)]
+            filtered = any(isinstance(x, ast.If) and any(a is y for a in appends for y in ast.walk(x))
+                           for x in ast.walk(loop))
+            if not appends or not filtered:
+                continue
+            lst = appends[0].func.value.id
+            normalised = False
+            for x in walk_own(m.node):
+                if isinstance(x, ast.If) and lst in {y.id for y in ast.walk(x.test) if isinstance(y, ast.Name)} and \
+                        any(isinstance(z, ast.Assign) and norm_stmt(z.targets[0]) == lst and
+                            isinstance(z.value, ast.Constant) and z.value.value is None for z in x.body):
+                    normalised = True
+            ob(rep, 'SIB-empty', m.fq, f'{name}: a filtered interval list that ends up empty is turned back into None',
+               normalised or not tells_apart, 'normalised to None' if normalised else 'equality treats [] as None',
+               f'{name} filters the intervals into a fresh list and can leave it empty, while are_intervals_equal tells '
+               f'[] from None: a piece without intervals cut from a peptide that has one elsewhere does not equal the '
+               f're-parsed piece, and the subsequence search does not find it in its parent', m.loc(loop), clause)
 
 
 def check(ctx, rep):
